@@ -198,7 +198,9 @@ def run(index: RepoIndex, rep) -> None:
         a0 = calls[0].node.args[0] if calls[0].node.args else None
         ok = isinstance(a0, ast.Name) and a0.id != sp
         d = w.single_def(a0.id) if ok else None
-        ok = ok and d is not None and d[0] == 'value' and src(d[1]) == f'fast_copy({sp})'
+        from ..view import deep_copy_of
+        ok = ok and d is not None and d[0] == 'value' and \
+            deep_copy_of(index, f.module, d[1], sp)
         rep.check(bool(ok), 'C03.R1', TRANS, 'transition_with_copy', calls[0].line,
                   src(calls[0].node),
                   f'the transition mutates `{src(a0) if a0 is not None else None}`, which is '
@@ -229,8 +231,7 @@ def run(index: RepoIndex, rep) -> None:
     sw = step_wiring(index)
     fs = sw['func']
     tcs = sw['tcalls']
-    okc = len(tcs) == 1 and sw['copy'] is not None and \
-        sw['copy_def'] == f'fast_copy({sw["state"]})'
+    okc = len(tcs) == 1 and sw['copy'] is not None and sw['copy_deep']
     rep.check(okc, 'C03.R1', GW, 'GridWorld.functional_step', fs.node.lineno,
               '; '.join(src(e.node) for e in tcs) or 'functional_step',
               'functional_step runs the in-place transition on something other than one fresh '
